@@ -11,6 +11,7 @@ import (
 	"context"
 	"encoding/hex"
 	"fmt"
+	"io"
 	"os"
 	"os/exec"
 	"strconv"
@@ -109,6 +110,16 @@ func c12Child(a []string) {
 	fmt.Println("INTESTING", slog.VerifInTesting())
 	via, _ := strconv.Atoi(a[8])
 	l := c12Setup(a[0], L, flags, a[6], via)
+	if via%7 == 3 {
+		// an earlier Panic call of the same process (recovered by its caller, if it panicked at all): every later
+		// terminating call terminates as if it were the first
+		func() {
+			defer func() { _ = recover() }()
+			pre := slog.New("c12earlier")
+			pre.SetWriter(io.Discard).SetErrorWriter(io.Discard).SetLevel(slog.TraceLevel)
+			pre.Panic("an earlier panic, recovered")
+		}()
+	}
 	f := loggerEPs[a[1]]
 	if a[0] == "p" {
 		f = pkgEPs[a[1]]
